@@ -610,26 +610,8 @@ def main(argv: List[str]) -> int:
         tab(False, "merge:history:raises", f"repeated merge raises {type(e).__name__}: {e}")
     # ---- 5. gate
     ng, okg, ginfo = gate_obligations(run, stats)
-    import jsonschema
-
-    schema_arg_is_rooted = False
-    try:
-        jsonschema.validate({"garbage": 1}, schema)
-        root_constrains = False
-    except jsonschema.ValidationError:
-        root_constrains = True
-    # the schema object actually handed to validate: evaluate main()'s expression when it is built from `schema`
-    arg = ginfo.get("schema_arg", "schema")
-    try:
-        eff = _effective_schema(arg, schema)
-        try:
-            jsonschema.validate({"garbage": 1}, eff)
-            eff_constrains = False
-        except jsonschema.ValidationError:
-            eff_constrains = True
-    except Exception:
-        eff_constrains = root_constrains
-    tab(eff_constrains, "main:gate:schema-root", "the schema object handed to jsonschema.validate does not constrain the document root (no $ref/type at top level): every document validates", schema_argument=arg, schema_root_keys=list(schema))
+    # whether the schema object main() validates against constrains the document root is decided by running the command on a
+    # document whose only violation is at the root (edit 'unknown top-level key' of the native gate runs below)
     tmp = gen.scratch()
     try:
         plugins = ["python", "rust", "dotnet"] + (["testdata"] if run.tier == "thorough" else [])
@@ -680,30 +662,6 @@ def main(argv: List[str]) -> int:
         }
     )
     return run.finish(cov)
-
-
-def _effective_schema(arg_expr: str, raw_schema: Dict) -> Any:
-    """Value of the expression main() hands to jsonschema.validate, following main()'s assignments to the names it uses
-    (the first assignment from json.load(...) is the schema file itself)."""
-    tree = ast.parse(open(os.path.join(REPO, MAIN_REL), encoding="utf-8").read())
-    main = next(n for n in tree.body if isinstance(n, ast.FunctionDef) and n.name == "main")
-    env: Dict[str, Any] = {}
-    for node in ast.walk(main):
-        pass
-    for stmt in main.body:
-        if isinstance(stmt, ast.Assign) and len(stmt.targets) == 1 and isinstance(stmt.targets[0], ast.Name):
-            name = stmt.targets[0].id
-            src = ast.unparse(stmt.value)
-            if "json.load" in src and "schema" in src:
-                env[name] = copy.deepcopy(raw_schema)
-            elif name in env or any(isinstance(x, ast.Name) and x.id in env for x in ast.walk(stmt.value)):
-                try:
-                    env[name] = eval(compile(ast.Expression(stmt.value), "<main>", "eval"), {"__builtins__": {"dict": dict}}, dict(env))
-                except Exception:
-                    pass
-        if any(isinstance(x, ast.Call) and ast.unparse(x.func).endswith("validate") for x in ast.walk(stmt)):
-            break
-    return eval(arg_expr, {"__builtins__": {"dict": dict}}, env)
 
 
 def _first_diff(a, b, path="$"):
